@@ -342,6 +342,27 @@ def _snapshot_without_postcondition():
     return f(1)
 
 
+class Position:
+    """A slice bound that is not an int (anything with __index__ will do, e.g. the integers of numpy)."""
+
+    def __init__(self, at):
+        self.at = at
+
+    def __index__(self):
+        return self.at
+
+    def __repr__(self):
+        return "Position({})".format(self.at)
+
+
+def _slice_bound_with_index_method():
+    @icontract.require(lambda xs, start, stop: len(xs[start:stop:Position(1)]) > 5, enabled=True)
+    def f(xs, start, stop):
+        return xs
+
+    return f([1, 2, 3, 4], Position(1), Position(3))
+
+
 def _result_parameter():
     @icontract.ensure(lambda result: result > 0, enabled=True)
     def f(result):
@@ -390,7 +411,7 @@ def _property_overrides_method():
     return M1().x
 
 
-for _name, _thunk in (("result-parameter", _result_parameter), ("OLD-parameter", _old_parameter), ("result-keyword", _result_keyword),
+for _name, _thunk in (("slice-bound-with-index-method", _slice_bound_with_index_method), ("result-parameter", _result_parameter), ("OLD-parameter", _old_parameter), ("result-keyword", _result_keyword),
                       ("result-parameter-async", _result_parameter_async), ("property-overrides-method", _property_overrides_method), ("coroutine-invariant", _coroutine_invariant), ("coroutine-condition", _coroutine_condition),
                       ("coroutine-capture", _coroutine_capture), ("require-added-to-inherited-groups", _require_added_to_inherited_groups),
                       ("weaken-enabled-base", _weaken_enabled_base), ("weaken-enabled-base-violation", _weaken_enabled_base_violation),
